@@ -113,6 +113,15 @@ pub struct Shared {
     /// answer of the user-validation step for the current ceremony
     pub uv_answer: Result<(bool, bool), u8>,
     pub yields: bool,
+    /// concurrent mode: the ceremony being polled; events are tagged with it
+    pub current: Option<usize>,
+    /// concurrent mode: no suspension before a store call's effect (only after it, while the guard is held)
+    pub no_before_gate: bool,
+    /// the polled ceremony last stopped at a gate (as opposed to waiting for a lock)
+    pub at_gate: bool,
+    /// ceremonies currently suspended inside a store call (holding the guard of a lock wrapper)
+    pub in_call: Vec<usize>,
+    pub progress: u64,
 }
 
 pub type Sh = Arc<Mutex<Shared>>;
@@ -129,7 +138,11 @@ pub fn set_write_through(path: &str) {
 }
 
 impl Shared {
-    pub fn record(&mut self, v: Value) {
+    pub fn record(&mut self, mut v: Value) {
+        if let Some(c) = self.current {
+            v["cer"] = json!(c + 1);
+        }
+        self.progress += 1;
         if let Some(f) = WRITE_THROUGH.lock().unwrap().as_mut() {
             use std::io::Write;
             let _ = writeln!(f, "{v}");
@@ -150,6 +163,11 @@ pub fn new_shared() -> Sh {
         fallible_calls: 0,
         uv_answer: Ok((true, true)),
         yields: true,
+        current: None,
+        no_before_gate: false,
+        at_gate: false,
+        in_call: vec![],
+        progress: 0,
     }))
 }
 
@@ -191,7 +209,35 @@ pub async fn gate(sh: &Sh) {
     if cancel {
         Forever.await
     } else if yields {
+        {
+            let mut s = sh.lock().unwrap();
+            s.at_gate = true;
+            s.progress += 1;
+        }
         YieldOnce(false).await
+    }
+}
+
+/// gate at the entry of a store call: skipped in concurrent mode (see `no_before_gate`); marks the call as entered
+pub async fn gate_in(sh: &Sh) {
+    let skip = {
+        let mut s = sh.lock().unwrap();
+        if let Some(c) = s.current {
+            s.in_call.push(c);
+        }
+        s.no_before_gate
+    };
+    if !skip {
+        gate(sh).await
+    }
+}
+
+/// gate at the exit of a store call
+pub async fn gate_out(sh: &Sh) {
+    gate(sh).await;
+    let mut s = sh.lock().unwrap();
+    if let Some(c) = s.current {
+        s.in_call.retain(|x| *x != c);
     }
 }
 
@@ -377,7 +423,7 @@ impl CredentialStore for TStore {
         ids: Option<&[PublicKeyCredentialDescriptor]>,
         rp_id: &str,
     ) -> Result<Vec<Passkey>, StatusCode> {
-        gate(&self.sh).await;
+        gate_in(&self.sh).await;
         let (ids_json, rp_name) = {
             let s = self.sh.lock().unwrap();
             (
@@ -416,7 +462,7 @@ impl CredentialStore for TStore {
             self.emit(json!({"call": "find", "idsGiven": ids.is_some(), "ids": ids_json, "rp": rp_name, "cred": no_cred(),
                              "ok": res.is_ok(), "err": err, "found": found, "snap": snap, "faulted": fault.is_some(), "opts": no_opts()}));
         }
-        gate(&self.sh).await;
+        gate_out(&self.sh).await;
         res
     }
 
@@ -427,7 +473,7 @@ impl CredentialStore for TStore {
         rp: PublicKeyCredentialRpEntity,
         _options: Options,
     ) -> Result<(), StatusCode> {
-        gate(&self.sh).await;
+        gate_in(&self.sh).await;
         let opts = (_options.rk, _options.up, _options.uv);
         let fault = self.fault();
         let rp_name = {
@@ -461,12 +507,12 @@ impl CredentialStore for TStore {
                              "ok": res.is_ok(), "err": err, "found": [], "snap": snap, "faulted": fault.is_some(),
                              "opts": {"rk": opts.0, "up": opts.1, "uv": opts.2}}));
         }
-        gate(&self.sh).await;
+        gate_out(&self.sh).await;
         res
     }
 
     async fn update_credential(&mut self, cred: Passkey) -> Result<(), StatusCode> {
-        gate(&self.sh).await;
+        gate_in(&self.sh).await;
         let fault = self.fault();
         let res: Result<(), StatusCode> = if let Some(b) = fault {
             Err(StatusCode::from(b))
@@ -493,12 +539,12 @@ impl CredentialStore for TStore {
             self.emit(json!({"call": "update", "idsGiven": false, "ids": [], "rp": c["rp"], "cred": c,
                              "ok": res.is_ok(), "err": err, "found": [], "snap": snap, "faulted": fault.is_some(), "opts": no_opts()}));
         }
-        gate(&self.sh).await;
+        gate_out(&self.sh).await;
         res
     }
 
     async fn get_info(&self) -> StoreInfo {
-        gate(&self.sh).await;
+        gate_in(&self.sh).await;
         {
             let s = self.sh.lock().unwrap();
             let snap = self.snapshot(&s.dict);
@@ -506,7 +552,7 @@ impl CredentialStore for TStore {
             self.emit(json!({"call": "info", "idsGiven": false, "ids": [], "rp": "none", "cred": no_cred(),
                              "ok": true, "err": 0, "found": [], "snap": snap, "faulted": false, "opts": no_opts()}));
         }
-        gate(&self.sh).await;
+        gate_out(&self.sh).await;
         match &self.inner {
             Inner::Reference(_) => StoreInfo { discoverability: disc_of(self.disc) },
             Inner::Memory(m) => m.get_info().await,
